@@ -625,12 +625,27 @@ class DrillholeScenario(BaseScenario):
         depths = sorted(set(depths))
         if any(d > path.end for d in depths):
             sim.probe("query_beyond_end")
+        discr = {"where": "query", "rows": len(path.depths) - 1}
+        if r.random() < 0.4:
+            # single depths, in the forms a caller has at hand; the array query below then sees what they left behind
+            sim.probe("query_scalar")
+            for _ in range(1 + r.randrange(3)):
+                dep = depths[r.randrange(len(depths))]
+                form = ("float", "int", "np_scalar", "zero_d")[r.randrange(4)]
+                if form == "int":
+                    dep = float(int(dep))
+                arg = {"float": float(dep), "int": int(dep), "np_scalar": np.float64(dep), "zero_d": np.asarray(dep)}[form]
+                one = np.asarray(well.desurvey(arg), dtype=float).reshape(-1, 3)
+                if one.shape != (1, 3):
+                    raise Violation("C18", "query_shape", f"desurvey of one {form} depth has shape {one.shape}", {**discr, "form": form})
+                if path.judged(dep) and not (np.all(np.isfinite(one[0])) and close(one[0], path.at(dep), dep)):
+                    raise Violation("C18", "position_off_path", f"desurvey({dep}) [{form}] = {one[0].tolist()}, the surveyed path gives {path.at(dep).tolist()} (collar {st['collar']}, surveys {st['surveys']})",
+                                    {**discr, "beyond": dep > path.end})
         got = np.asarray(well.desurvey(depths if r.random() < 0.4 else np.asarray(depths)), dtype=float)
         eps = 0.125
         got_eps = np.asarray(well.desurvey(np.asarray(depths) + eps), dtype=float)
         del well
         st["queried"] = True
-        discr = {"where": "query", "rows": len(path.depths) - 1}
         if got.shape != (len(depths), 3):
             raise Violation("C18", "query_shape", f"desurvey of {len(depths)} depths has shape {got.shape}", discr)
         for dep, pos, pos_eps in zip(depths, got, got_eps):
